@@ -308,8 +308,18 @@ func cmdWorker(args []string) (code int) {
 		if v := c.Violation(); v != nil && !classes[v.Class()] {
 			classes[v.Class()] = true
 			o.Stats = nil
-			path, rf := WriteReplay(w, o, c, true)
+			// first the unshrunk replay, made durable, so that a shrink candidate that kills the
+			// process (e.g. a huge allocation) costs only the minimisation, not the finding
+			path, rf := WriteReplay(w, o, c, false)
 			res.Violations = append(res.Violations, foundViol{Replay: path, Violation: rf.Violation})
+			flush(res, *out)
+			if journal != nil {
+				slot := fmt.Sprintf("run=%d shrinking=1", i)
+				b := []byte(fmt.Sprintf("%-127s\n", slot))
+				_, _ = journal.WriteAt(b, 0)
+			}
+			path, rf = WriteReplay(w, o, c, true)
+			res.Violations[len(res.Violations)-1] = foundViol{Replay: path, Violation: rf.Violation}
 			if len(res.Violations) >= 4 {
 				res.Early = true
 				break
@@ -317,25 +327,30 @@ func cmdWorker(args []string) (code int) {
 		}
 	}
 	res.Done = true
+	if err := flush(res, *out); err != nil {
+		return ExitTrouble
+	}
+	return 0
+}
+
+func flush(res *workerResult, out string) error {
 	res.Stats.DistinctList = make([]uint64, 0, len(res.Stats.Distinct))
 	for h := range res.Stats.Distinct {
 		res.Stats.DistinctList = append(res.Stats.DistinctList, h)
 	}
 	sort.Slice(res.Stats.DistinctList, func(i, j int) bool { return res.Stats.DistinctList[i] < res.Stats.DistinctList[j] })
 	b, _ := json.Marshal(res)
-	if err := os.WriteFile(*out, b, 0o644); err != nil {
-		return ExitTrouble
-	}
-	return 0
+	return os.WriteFile(out, b, 0o644)
 }
 
 type checkOutcome struct {
-	stats      *Stats
-	viols      []foundViol
-	trouble    []string
-	early      bool
-	crashes    int
-	wallByWorld map[string]float64
+	stats        *Stats
+	viols        []foundViol
+	trouble      []string
+	early        bool
+	crashes      int
+	shrinkDeaths int
+	wallByWorld  map[string]float64
 }
 
 func cmdCheck(args []string) int {
@@ -500,6 +515,19 @@ func runWorld(w World, tier string, seed uint64, total, nw int, budget time.Dura
 					mu.Unlock()
 					return
 				}
+				if _, shr := focus["shrinking"]; shr {
+					// died while minimising an already recorded violation: keep the partial result
+					var res workerResult
+					if rerr == nil && json.Unmarshal(b, &res) == nil {
+						mu.Lock()
+						oc.stats.Merge(res.Stats)
+						oc.viols = append(oc.viols, res.Violations...)
+						oc.shrinkDeaths++
+						mu.Unlock()
+					}
+					from = runIdx + 1
+					continue
+				}
 				confirmed, msg := confirmCrash(self, w, tier, seed, runIdx, focus, tmp)
 				mu.Lock()
 				oc.crashes++
@@ -634,26 +662,27 @@ func writeEvidence(prop, tier string, seed uint64, ws []World, oc *checkOutcome,
 		hours = 1e-9
 	}
 	cov := map[string]interface{}{
-		"evaluations":           oc.stats.Execs,
-		"distinct_nontrivial":   len(oc.stats.Distinct),
-		"rule":                  strings.Join(rules, " || "),
-		"samples":               samples,
-		"exhaustive":            false,
-		"simulated_runs":        oc.stats.Runs,
-		"seeds":                 []uint64{seed},
-		"runs_per_hour":         int64(float64(oc.stats.Runs) / hours),
-		"executions_per_hour":   int64(float64(oc.stats.Execs) / hours),
-		"simulated_time_s":      float64(oc.stats.SimNanos) / 1e9,
-		"simulated_time_note":   strings.TrimSpace(simNote),
-		"faults_fired":          faults,
-		"probes_hit":            probes,
-		"counters":              other,
-		"worker_deaths":         oc.crashes,
-		"inconclusive_unknown":  oc.stats.Unknown,
-		"components_real":       real,
-		"components_stub":       stub,
-		"budget_stopped_early":  oc.early,
-		"wall_s_by_world":       oc.wallByWorld,
+		"evaluations":            oc.stats.Execs,
+		"distinct_nontrivial":    len(oc.stats.Distinct),
+		"rule":                   strings.Join(rules, " || "),
+		"samples":                samples,
+		"exhaustive":             false,
+		"simulated_runs":         oc.stats.Runs,
+		"seeds":                  []uint64{seed},
+		"runs_per_hour":          int64(float64(oc.stats.Runs) / hours),
+		"executions_per_hour":    int64(float64(oc.stats.Execs) / hours),
+		"simulated_time_s":       float64(oc.stats.SimNanos) / 1e9,
+		"simulated_time_note":    strings.TrimSpace(simNote),
+		"faults_fired":           faults,
+		"probes_hit":             probes,
+		"counters":               other,
+		"worker_deaths":          oc.crashes,
+		"deaths_while_shrinking": oc.shrinkDeaths,
+		"inconclusive_unknown":   oc.stats.Unknown,
+		"components_real":        real,
+		"components_stub":        stub,
+		"budget_stopped_early":   oc.early,
+		"wall_s_by_world":        oc.wallByWorld,
 	}
 	ev := map[string]interface{}{
 		"property_id": prop,
